@@ -164,21 +164,19 @@ def cells(tier):
         return cs
     pats = [(), ("day",), ("month", "day"), ("reltime",), ("hour", "minute", "second", "microsecond"),
             ("year", "month", "day"), ("day", "reltime"), ("month",), ("year",)]
+    # sized to stay under an hour on 16 cores: the full field patterns x weekday x operator at 2024, the calendar patterns elsewhere
     for kind in ("date", "datetime"):
         for y in ((2024, 1900, 2000, 3, 9997) if kind == "date" else (2024,)):
-            for years in ((-1, 0, 1) if kind == "date" else (0,)):
-                if not (2 <= y + years <= 9998):
-                    continue
-                for absf in (pats if y == 2024 else pats[:3] + pats[5:6]):      # the full field patterns at 2024, the calendar ones elsewhere
-                    for wd in ((None, "pos", "neg") if (y == 2024 and years == 0) else (None, "pos")):
-                        for op in ("add", "sub", "radd"):
-                            if op != "add" and (y != 2024 or years != 0):
-                                continue
+            for years in ((-1, 0, 1) if (kind == "date" and y == 2024) else (0,)):
+                full = y == 2024 and years == 0
+                for absf in ((pats if kind == "date" else pats[:5]) if full else pats[:3] + pats[5:6]):
+                    for wd in ((None, "pos", "neg") if full else (None, "pos")):
+                        for op in (("add", "sub", "radd") if (full and kind == "date") else (("add", "sub") if full else ("add",))):
                             add(kind, y, years, absf, wd, op, 900)
-    for years in (-3, -1, 1, 2):
-        for absf in ((), ("month",), ("day",)):
-            for op in ("add", "sub", "radd"):
-                add("date", 2024, years, absf, None, op, 1200, mrange=60)
+    for years in (-3, 1):
+        for absf in ((), ("month",)):
+            for op in ("add", "sub"):
+                add("date", 2024, years, absf, None, op, 900, mrange=60)
     return cs
 
 
